@@ -115,6 +115,24 @@ func c01Eval(w *mc.W, cas c01Case) {
 		if want := ref.B58CheckEncode(rn.P2PKHID, hash160(data)); enc != want {
 			fail("pubkey-address-differs-from-spec", fmt.Sprintf("EncodeAddress=%q want %q", enc, want))
 		}
+		// the other route to the key's P2PKH address: AddressPubKeyHash() must give the address of
+		// the key's hash ON THE KEY'S NETWORK, exactly like the direct constructor does
+		if pk, ok := addr.(*bchutil.AddressPubKey); ok {
+			var pkh *bchutil.AddressPubKeyHash
+			if msg, p := mc.Guard(func() { pkh = pk.AddressPubKeyHash() }); p || pkh == nil {
+				fail("pubkey-to-p2pkh-conversion-panics", msg)
+			} else {
+				want := ref.CashEncode(rn.CashPrefix, 0, hash160(data))
+				if got := pkh.EncodeAddress(); got != want {
+					fail("pubkey-to-p2pkh-conversion-differs-from-direct-construction", fmt.Sprintf("AddressPubKeyHash().EncodeAddress()=%q, the P2PKH address of this key on %s is %q", got, cas.Net, want))
+				} else if d, err := bchutil.DecodeAddress(got, net); err != nil || !bytes.Equal(d.ScriptAddress(), hash160(data)) {
+					fail("pubkey-to-p2pkh-conversion-does-not-decode-on-its-network", fmt.Sprint(err))
+				}
+				if pkh.EncodeAddress() == want && !pkh.IsForNet(net) {
+					fail("pubkey-to-p2pkh-conversion-not-for-its-net", cas.Net)
+				}
+			}
+		}
 	}
 	if !bytes.Equal(addr.ScriptAddress(), wantScript) {
 		fail("constructor-script-payload-wrong/"+cas.Kind, fmt.Sprintf("ScriptAddress=%x want %x", addr.ScriptAddress(), wantScript))
